@@ -1,11 +1,22 @@
 """C04 Invalid input raises LoadError and nothing else."""
 from vf.gen import Plan
+from props.fam_model import MEMBERS, member_module, LOAD_PARAMS, LOAD_ARGS, load_slices
 from props.fam_l1 import l1_loader_module
 from props.fam_l2 import l2_module
 
 
 def build(tier, seed):
     mods = [l1_loader_module("C04", tier), l2_module("C04", tier)]
+
+    model_names = ['plain', 'rename', 'nested', 'nested2', 'forbid_nested', 'kwargs', 'rest_field_rename', 'saturator', 'as_list_forbid', 'list_gaps', 'list_in_dict', 'dict_in_list', 'pairs_map'] if tier == "quick" else list(MEMBERS)
+    for name in model_names:
+        mm = member_module("C04", name)
+        for sl, pre in load_slices(name, allow_bug=True).items():
+            mm.ob(f"model_{sl}_{name}", LOAD_PARAMS, f"return c04_model(MEMBER, MODEL, TREE, LOADERS, lambda: build_data(MEMBER, TREE, {LOAD_ARGS}), (v0 == -2 and p0) or (v1 == -2 and p1) or (v2 == -2 and p2))",
+                  pre=pre, timeout=120 if tier == "quick" else 900, family="generated model loaders (stub fields) x name_mapping recipes",
+                  bounds="slice " + sl + ": presence bits, symbolic stub codes, unknown keys, wrong node/root kinds, list truncation; 6 modes")
+
+        mods.append(mm)
     return Plan("C04", mods,
                 assumptions=["CrossHair models of builtins (floats as reals: numeric boundary regions are owned by the E2 kernels)"],
                 bounds={}, outside=["strings longer than the bound"])
